@@ -110,4 +110,25 @@ def uniCheck (c : UniCtx S) (bytesOf : Id → Option Bytes) (piece : Bytes) (ids
       | some why => .fails why
     | _, _ => .notApplicable "no unknown fallback"
 
+/-- C06, error answers: a necessary condition for an error on the bytes `x` of a hole under the fallback list
+    `fb`. The error of a Unigram encoding comes from a hole of some walk (`unigram_follows_chain`): with an empty
+    list every hole fails; `Unknown` fails only without an unknown token; `Skip` never fails; `Bytes` re-encodes
+    `x` byte by byte with the tail of the list, which can only fail at a byte at whose end no vocabulary entry
+    (inside `x`) ends, and only if the tail fails on that byte. -/
+def errPossible (c : UniCtx S) : List Fallback → Bytes → Bool
+  | [], _ => true
+  | .unknown :: _, _ => c.unknown.isNone
+  | .skip :: _, _ => false
+  | .bytes :: tail, x =>
+    (List.range x.length).any fun i =>
+      let e := i + 1
+      !((List.range e).any fun s => (c.tok (slice x s e)).isSome) && errPossible c tail (slice x i e)
+
+/-- An error answer for `piece` is possible only if some unit (character) at whose end no vocabulary entry ends
+    can fail under the list. -/
+def errPossiblePiece (c : UniCtx S) (piece : Bytes) : Bool :=
+  let bounds := charStarts piece ++ [piece.length]
+  (bounds.zip (bounds.drop 1)).any fun (a, e) =>
+    !(bounds.any fun s => s < e && (c.tok (slice piece s e)).isSome) && errPossible c c.fallback (slice piece a e)
+
 end Kitoken.Spec
